@@ -10,15 +10,7 @@ pub struct Lex {
 
 impl Lex {
     pub fn new(start: CaretPos, token: Token) -> Self {
-        let end = if let Token::Str(_str, _) = &token {
-            start.offset_line(_str.lines().count().saturating_sub(1))
-        } else if let Token::DocStr(_str) = &token {
-            start.offset_line(_str.lines().count().saturating_sub(1))
-        } else {
-            start
-        };
-
-        let end = end.offset_pos(token.clone().width());
+        let end = token.end(start);
         let pos = Position { start, end };
         Lex { pos, token }
     }
@@ -136,6 +128,21 @@ pub enum Token {
 impl Token {
     pub fn width(&self) -> usize {
         self.to_string().len()
+    }
+
+    /// Position of the caret after this token if it starts at `start`.
+    ///
+    /// A literal which spans several lines ends on its last line, after the characters of that
+    /// line.
+    pub fn end(&self, start: CaretPos) -> CaretPos {
+        let text = self.to_string();
+        match text.rsplit_once('\n') {
+            Some((before, last)) => CaretPos::new(
+                start.line + before.matches('\n').count() + 1,
+                last.len() + 1,
+            ),
+            None => start.offset_pos(text.len()),
+        }
     }
 
     pub fn same_type(left: &Token, right: &Token) -> bool {
